@@ -71,45 +71,6 @@ fn walks(r: &mut Rng, m: &Model, t: &Tables, k: usize) -> Vec<Vec<usize>> {
     ws
 }
 
-/// The provided Iterator methods (count, last, nth, size_hint, min, max,
-/// fold) of a public iterator must agree with the sequence `next` yields.
-fn iter_consistency<I, T>(o: &mut CaseOut, what: &str, mk: impl Fn() -> I)
-where
-    I: Iterator<Item = T>,
-    T: Ord + Clone + std::fmt::Debug,
-{
-    let mut it = mk();
-    let mut v: Vec<T> = Vec::new();
-    while let Some(x) = it.next() {
-        v.push(x);
-        if v.len() > 100_000 {
-            break;
-        }
-    }
-    let n = v.len();
-    let (lo, hi) = mk().size_hint();
-    let mut ok = mk().count() == n
-        && mk().last() == v.last().cloned()
-        && mk().max() == v.iter().cloned().max()
-        && mk().min() == v.iter().cloned().min()
-        && mk().fold(0usize, |a, _| a + 1) == n
-        && lo <= n
-        && hi.is_none_or(|h| n <= h);
-    for k in [0usize, n / 2, n.saturating_sub(1), n, n + 1] {
-        ok = ok && mk().nth(k) == v.get(k).cloned();
-    }
-    // partially consumed, then last / count
-    if n >= 2 {
-        let mut it = mk();
-        let _ = it.next();
-        ok = ok && it.last() == v.last().cloned();
-        let mut it = mk();
-        let _ = it.next();
-        ok = ok && it.count() == n - 1;
-    }
-    o.check(ok, &format!("{what}:provided-Iterator-methods-disagree-with-next"), || format!("next() yields {v:?}; count {} last {:?} size_hint {:?}", mk().count(), mk().last(), (lo, hi)));
-}
-
 fn check_queries<D>(d: &D, m: &Model, o: &mut CaseOut, r: &mut Rng, nwalks: usize)
 where
     D: Clone
@@ -200,16 +161,16 @@ where
     // iterator adapters on the public iterators
     if r.below(8) == 0 {
         let a = *r.pick(&vs);
-        iter_consistency(o, "out_neighbors", || d.out_neighbors(a));
-        iter_consistency(o, "in_neighbors", || d.in_neighbors(a));
-        iter_consistency(o, "vertices", || d.vertices());
-        iter_consistency(o, "arcs", || d.arcs());
-        iter_consistency(o, "sinks", || d.sinks());
-        iter_consistency(o, "sources", || d.sources());
-        iter_consistency(o, "degree_sequence", || d.degree_sequence());
-        iter_consistency(o, "indegree_sequence", || d.indegree_sequence());
-        iter_consistency(o, "outdegree_sequence", || d.outdegree_sequence());
-        iter_consistency(o, "semidegree_sequence", || d.semidegree_sequence());
+        crate::obs::iter_consistency(o, "out_neighbors", || d.out_neighbors(a));
+        crate::obs::iter_consistency(o, "in_neighbors", || d.in_neighbors(a));
+        crate::obs::iter_consistency(o, "vertices", || d.vertices());
+        crate::obs::iter_consistency(o, "arcs", || d.arcs());
+        crate::obs::iter_consistency(o, "sinks", || d.sinks());
+        crate::obs::iter_consistency(o, "sources", || d.sources());
+        crate::obs::iter_consistency(o, "degree_sequence", || d.degree_sequence());
+        crate::obs::iter_consistency(o, "indegree_sequence", || d.indegree_sequence());
+        crate::obs::iter_consistency(o, "outdegree_sequence", || d.outdegree_sequence());
+        crate::obs::iter_consistency(o, "semidegree_sequence", || d.semidegree_sequence());
     }
     // remove_arc is total: for ids outside V it answers false and changes nothing
     {
